@@ -26,6 +26,14 @@ fn main() {
     if args.len() < 2 { eprintln!("usage: yv-harness <property> [--tier t] [--seed n] [--out f]"); std::process::exit(2); }
     let prop = args[1].clone();
     if prop == "decode-worker" { codec::worker_main(); return; }
+    if prop == "dump-apply" {
+        // debugging aid: apply a v1 update (hex) to a fresh document and print what the checks look at
+        let u = model::unhex(&args.get(2).cloned().unwrap_or_default());
+        let d = sim::Replica::new(9, sim::DocCfg::default());
+        let r = d.apply_v1(&u);
+        println!("apply: {:?}\npublic: {}\ninternal: {}\npending: {}", r, sim::public_dump(&d.doc), sim::internal_dump(&sim::store_dump(&d.doc)), { use yrs::{ReadTxn, Transact}; d.doc.transact().has_missing_updates() });
+        return;
+    }
     let mut tier = "quick".to_string();
     let mut seed: u64 = 1;
     let mut out: Option<String> = None;
